@@ -293,6 +293,8 @@ func runC12(c *Ctx) {
 	}
 	ruleParamEnable(c)
 	// AUTH / STARTTLS handlers use the same predicates as the advertisement
+	ruleSizeParam(c) // the advertised SIZE limit is the one MAIL enforces
+
 	R.Rule("R-cmd-gates-agree", "E8 sibling agreement", "the STARTTLS and AUTH handlers accept under the same predicates that advertise them", 2)
 	if g := c.A.Func("(*Conn).handleStartTLS"); g != nil {
 		for _, site := range s.Find(g, "reply:220") {
